@@ -1,19 +1,22 @@
 /-
   C03 — property theorems.  Every `theorem` here is an obligation of the check; helpers are in Lemmas.lean.
+  All statements are about the executable model (Model.lean, Recv.lean); what ties the model to the code is the
+  translator (generated constants / try-except shapes in GenTables.lean) and the differential run (harness/c03.py).
 
-  Decoding (Model.lean mirrors serialization.py after the bounds-check repair):
-    decode_in_bounds / decode_list_in_bounds      a successful decode ends inside the buffer — for EVERY format
-                                                  (any nesting depth), every buffer, every start offset inside it
-    decode_declared_lengths / …_list              … and every length-prefixed part has exactly its declared length
-    truncated_never_accepted                      a buffer cut before the reported end is never accepted with that end
-    unpack_list_consume_all                       consume_all: success leaves no remainder
-  Receive path (Recv.lean, with guard constants / try-except shapes regenerated from the source):
-    receive_total                                 notify_listeners never raises, whatever the bytes, the registry history,
-                                                  the handler bodies (may raise anything) and the decryption results
-    receive_all_recipients_called                 every listener notify_listeners iterates over is invoked
-    prefix_gate                                   a handler (public or circuit-only) is entered only when the datagram's
-                                                  first 22 bytes are the handler's overlay prefix — also through cells
-    load_snapshot_total / load_snapshot_in_bounds the snapshot loop needs at most len(snapshot) iterations and never raises
+  Decoding (mirrors serialization.py after the bounds-check repair):
+    decode_end_le_max / decode_list_end_le_max    any format (any nesting), any buffer, ANY start offset: success ⇒ end ≤ max off len
+    decode_in_bounds / decode_list_in_bounds      corollary for a start offset inside the buffer: end inside the buffer
+    decode_declared_lengths / …_list              every length-prefixed part has exactly its declared length and is really there
+    decode_prefix_stable / …_list                 formats without `raw`: what decodes from a prefix of the buffer decodes identically from the buffer
+    truncated_is_rejected                         formats without `raw`: a buffer cut before the end of a successful decode is rejected
+    truncated_end_within_prefix                   all formats (weaker): decoding only k bytes can only report an end ≤ k
+    unpack_list_consume_all, consume_all_ends_at_buffer_end
+  Receive path (guard constants / try-except shapes regenerated from the source):
+    sender_lookup_total, community/crypto/stats/listener_on_packet_total, dispatch_total, receive_total,
+    datagram_received_total                       nothing propagates to the transport (assumptions: see receive_total)
+    receive_all_recipients_called                 every listener the loop starts with is invoked unless removed / endpoint closed mid-dispatch
+    prefix_gate                                   handlers (public, circuit-only) only for datagrams starting with the overlay's prefix
+    load_snapshot_progress / load_snapshot_total / load_snapshot_never_raises
 -/
 import Ipv8.C03.Lemmas
 
@@ -23,10 +26,11 @@ open Ipv8
 /-! ## decoding -/
 
 mutual
-/-- FULL statement (first half): for every format, buffer and start offset inside the buffer, a successful decode
-    reports an end position inside the buffer. -/
-theorem decode_in_bounds (f : Fmt) (d : Bytes) (off : Nat) (v : Val) (e : Nat) (hoff : off ≤ d.length)
-    (h : unpackAt f d off = .ok (v, e)) : e ≤ d.length := by
+/-- General form, no assumption on the start offset: a successful decode reports an end position inside the buffer, or —
+    only possible when the caller's start offset already lies beyond the buffer and nothing had to be read (empty format
+    list) — the unchanged start offset.  For every format (any nesting), every buffer, every (natural) offset. -/
+theorem decode_end_le_max (f : Fmt) (d : Bytes) (off : Nat) (v : Val) (e : Nat)
+    (h : unpackAt f d off = .ok (v, e)) : e ≤ max off d.length := by
   cases f with
   | struct fs =>
     simp only [unpackAt] at h
@@ -44,7 +48,7 @@ theorem decode_in_bounds (f : Fmt) (d : Bytes) (off : Nat) (v : Val) (e : Nat) (
     obtain ⟨n, hn, h⟩ := bind_ok h
     try dsimp only at h
     split at h
-    · cases h; assumption
+    · cases h; omega
     · cases h
   | utf8 lw base =>
     simp only [unpackAt] at h
@@ -52,7 +56,7 @@ theorem decode_in_bounds (f : Fmt) (d : Bytes) (off : Nat) (v : Val) (e : Nat) (
     try dsimp only at h
     split at h
     · split at h
-      · cases h; assumption
+      · cases h; omega
       · cases h
     · cases h
   | ipv4 =>
@@ -62,54 +66,68 @@ theorem decode_in_bounds (f : Fmt) (d : Bytes) (off : Nat) (v : Val) (e : Nat) (
     have := (readAt_ok hb).1; omega
   | address ipOnly =>
     simp only [unpackAt] at h
-    exact (unpackAddressAt_bound h).1
+    have := (unpackAddressAt_bound h).1; omega
   | listOf lw f =>
     simp only [unpackAt] at h
     obtain ⟨n, hn, h⟩ := bind_ok h
     obtain ⟨⟨vs, o⟩, hm, h⟩ := bind_ok h
     cases h
-    exact manyAt_bound (unpackAt f) (fun d off v e ho hu => decode_in_bounds f d off v e ho hu) n d (off + lw) vs _
-      (readUint_ok hn).1 hm
+    have a := manyAt_bound (unpackAt f) (fun d off v e hu => decode_end_le_max f d off v e hu) n d (off + lw) vs _ hm
+    have b := (readUint_ok hn).1
+    omega
   | array lw lenBE k itemBE =>
     simp only [unpackAt] at h
     obtain ⟨n, hn, h⟩ := bind_ok h
     try dsimp only at h
     split at h
-    · cases h; assumption
+    · cases h; omega
     · cases h
   | nested fs =>
     simp only [unpackAt] at h
     obtain ⟨n, hn, h⟩ := bind_ok h
     split at h
     · obtain ⟨⟨vs, o⟩, _, h⟩ := bind_ok h
-      cases h; assumption
+      cases h; omega
     · cases h
   | tuple fs =>
     simp only [unpackAt] at h
     obtain ⟨⟨vs, o⟩, hl, h⟩ := bind_ok h
     cases h
-    exact decode_list_in_bounds fs d off vs _ hoff hl
+    exact decode_list_end_le_max fs d off vs _ hl
   | flags w absolute =>
     simp only [unpackAt] at h
     obtain ⟨n, hn, h⟩ := bind_ok h
     cases h
     have := (readUint_ok hn).1
     split <;> omega
-/-- the same for a whole format list (one Serializable): `Serializer.unpack_serializable` -/
-theorem decode_list_in_bounds (fs : FmtList) (d : Bytes) (off : Nat) (vs : List Val) (e : Nat) (hoff : off ≤ d.length)
-    (h : unpackListAt fs d off = .ok (vs, e)) : e ≤ d.length := by
+theorem decode_list_end_le_max (fs : FmtList) (d : Bytes) (off : Nat) (vs : List Val) (e : Nat)
+    (h : unpackListAt fs d off = .ok (vs, e)) : e ≤ max off d.length := by
   cases fs with
-  | nil => simp only [unpackListAt] at h; cases h; exact hoff
+  | nil => simp only [unpackListAt] at h; cases h; omega
   | cons f fs =>
     simp only [unpackListAt] at h
     obtain ⟨⟨v, o1⟩, h1, h⟩ := bind_ok h
     obtain ⟨⟨vs', o2⟩, h2, h⟩ := bind_ok h
     cases h
-    exact decode_list_in_bounds fs d o1 vs' _ (decode_in_bounds f d off v o1 hoff h1) h2
+    have a := decode_end_le_max f d off v o1 h1
+    have b := decode_list_end_le_max fs d o1 vs' _ h2
+    omega
 end
 
+/-- a successful decode that starts inside the buffer ends inside the buffer (the clause of the property; the start
+    offsets the code uses are the literals 0 and 23 on buffers it has already indexed there, cf. `decode_end_le_max` for
+    arbitrary offsets).  Offsets are naturals: Python's negative offsets (read from the end) are not modelled. -/
+theorem decode_in_bounds (f : Fmt) (d : Bytes) (off : Nat) (v : Val) (e : Nat) (hoff : off ≤ d.length)
+    (h : unpackAt f d off = .ok (v, e)) : e ≤ d.length := by
+  have := decode_end_le_max f d off v e h; omega
+
+/-- the same for a whole format list (one Serializable): `Serializer.unpack_serializable` -/
+theorem decode_list_in_bounds (fs : FmtList) (d : Bytes) (off : Nat) (vs : List Val) (e : Nat) (hoff : off ≤ d.length)
+    (h : unpackListAt fs d off = .ok (vs, e)) : e ≤ d.length := by
+  have := decode_list_end_le_max fs d off vs e h; omega
+
 mutual
-/-- FULL statement (second half): every varlen / utf8 / listOf / array / nested / host-name part of a successfully decoded
+/-- every varlen / utf8 / listOf / array / nested / host-name part of a successfully decoded
     value has exactly the length its prefix declares, at every nesting depth (`Declared`, Lemmas.lean). -/
 theorem decode_declared_lengths (f : Fmt) (d : Bytes) (off : Nat) (v : Val) (e : Nat)
     (h : unpackAt f d off = .ok (v, e)) : Declared f d off v e := by
@@ -167,9 +185,11 @@ theorem decode_declared_lengths (f : Fmt) (d : Bytes) (off : Nat) (v : Val) (e :
     obtain ⟨n, hn, h⟩ := bind_ok h
     try dsimp only at h
     split at h
-    · cases h
+    · rename_i hle
+      cases h
       simp only [Declared]
-      exact ⟨_, rfl, by rw [decodeElems_length]; exact hn, by rw [decodeElems_length]⟩
+      refine ⟨_, rfl, by rw [decodeElems_length]; exact hn, by rw [decodeElems_length], ?_, by rw [decodeElems_length]⟩
+      rw [decodeElems_length, slice_length _ _ _ hle]; omega
     · cases h
   | nested fs =>
     simp only [unpackAt] at h
@@ -203,12 +223,132 @@ theorem decode_list_declared_lengths (fs : FmtList) (d : Bytes) (off : Nat) (vs 
     exact ⟨v, vs', o1, rfl, decode_declared_lengths f d off v o1 h1, decode_list_declared_lengths fs d o1 vs' _ h2⟩
 end
 
-/-- a truncated message is never silently accepted: if the first `k` bytes alone decode successfully, the reported end
+mutual
+/-- prefix stability: for a format without `raw`, whatever decodes from the first `k` bytes of a buffer decodes to the
+    same value and the same end from the whole buffer (a decode never depends on bytes it has not bounds-checked) -/
+theorem decode_prefix_stable (f : Fmt) (d : Bytes) (k off : Nat) (v : Val) (e : Nat) (hrf : rawFree f = true)
+    (h : unpackAt f (d.take k) off = .ok (v, e)) : unpackAt f d off = .ok (v, e) := by
+  cases f with
+  | raw => simp [rawFree] at hrf
+  | struct fs =>
+    simp only [unpackAt] at h ⊢
+    obtain ⟨b, hb, h⟩ := bind_ok h
+    rw [(readAt_take hb).1]; exact h
+  | bits =>
+    simp only [unpackAt] at h ⊢
+    obtain ⟨n, hn, h⟩ := bind_ok h
+    rw [(readUint_take hn).1]; exact h
+  | varlen lw base =>
+    simp only [unpackAt] at h ⊢
+    obtain ⟨n, hn, h⟩ := bind_ok h
+    rw [(readUint_take hn).1]
+    simp only [bind, Except.bind]
+    split at h
+    · rename_i hle
+      have hk := (length_take_le d k)
+      rw [if_pos (by omega), ← slice_take d k _ _ (by omega)]
+      exact h
+    · cases h
+  | utf8 lw base =>
+    simp only [unpackAt] at h ⊢
+    obtain ⟨n, hn, h⟩ := bind_ok h
+    rw [(readUint_take hn).1]
+    simp only [bind, Except.bind]
+    split at h
+    · rename_i hle
+      have hk := (length_take_le d k)
+      rw [if_pos (by omega), ← slice_take d k _ _ (by omega)]
+      exact h
+    · cases h
+  | ipv4 =>
+    simp only [unpackAt] at h ⊢
+    obtain ⟨b, hb, h⟩ := bind_ok h
+    rw [(readAt_take hb).1]; exact h
+  | address ipOnly =>
+    simp only [unpackAt] at h ⊢
+    exact unpackAddressAt_take h
+  | listOf lw f =>
+    simp only [rawFree] at hrf
+    simp only [unpackAt] at h ⊢
+    obtain ⟨n, hn, h⟩ := bind_ok h
+    obtain ⟨⟨vs, o⟩, hm, h⟩ := bind_ok h
+    rw [(readUint_take hn).1]
+    simp only [bind, Except.bind]
+    rw [manyAt_take (unpackAt f) k (fun d off v e hu => decode_prefix_stable f d k off v e hrf hu) n d _ vs o hm]
+    exact h
+  | array lw lenBE kd itemBE =>
+    simp only [unpackAt] at h ⊢
+    obtain ⟨n, hn, h⟩ := bind_ok h
+    rw [(readLen_take hn).1]
+    simp only [bind, Except.bind]
+    split at h
+    · rename_i hle
+      have hk := (length_take_le d k)
+      rw [if_pos (by omega), ← slice_take d k _ _ (by omega)]
+      exact h
+    · cases h
+  | nested fs =>
+    simp only [unpackAt] at h ⊢
+    obtain ⟨n, hn, h⟩ := bind_ok h
+    rw [(readUint_take hn).1]
+    simp only [bind, Except.bind]
+    split at h
+    · rename_i hle
+      have hk := (length_take_le d k)
+      rw [if_pos (by omega), ← slice_take d k _ _ (by omega)]
+      exact h
+    · cases h
+  | tuple fs =>
+    simp only [rawFree] at hrf
+    simp only [unpackAt] at h ⊢
+    obtain ⟨⟨vs, o⟩, hl, h⟩ := bind_ok h
+    rw [decode_list_prefix_stable fs d k off vs o hrf hl]
+    exact h
+  | flags w absolute =>
+    simp only [unpackAt] at h ⊢
+    obtain ⟨n, hn, h⟩ := bind_ok h
+    rw [(readUint_take hn).1]; exact h
+theorem decode_list_prefix_stable (fs : FmtList) (d : Bytes) (k off : Nat) (vs : List Val) (e : Nat)
+    (hrf : rawFreeList fs = true) (h : unpackListAt fs (d.take k) off = .ok (vs, e)) :
+    unpackListAt fs d off = .ok (vs, e) := by
+  cases fs with
+  | nil => simpa [unpackListAt] using h
+  | cons f fs =>
+    simp only [rawFreeList, Bool.and_eq_true] at hrf
+    simp only [unpackListAt] at h ⊢
+    obtain ⟨⟨v, o1⟩, h1, h⟩ := bind_ok h
+    obtain ⟨⟨vs', o2⟩, h2, h⟩ := bind_ok h
+    rw [decode_prefix_stable f d k off v o1 hrf.1 h1]
+    simp only [bind, Except.bind]
+    rw [decode_list_prefix_stable fs d k o1 vs' o2 hrf.2 h2]
+    exact h
+end
+
+/-- "a truncated message is never silently accepted", natural reading: if a buffer decodes (format without `raw`) with
+    end `e`, then no cut of the buffer before `e` decodes at all — it is rejected with an error.
+    (With a trailing `raw` = "the rest of the buffer" a cut is by design undetectable; there `consume_all` and the
+    signature are what protect a message.) -/
+theorem truncated_is_rejected (fs : FmtList) (d : Bytes) (k off : Nat) (vs : List Val) (e : Nat)
+    (hrf : rawFreeList fs = true) (h : unpackListAt fs d off = .ok (vs, e)) (hoff : off ≤ k) (hk : k < e) :
+    ∃ err, unpackListAt fs (d.take k) off = .error err := by
+  cases ht : unpackListAt fs (d.take k) off with
+  | error err => exact ⟨err, rfl⟩
+  | ok r =>
+    obtain ⟨vs', e'⟩ := r
+    have hs := decode_list_prefix_stable fs d k off vs' e' hrf ht
+    rw [h] at hs
+    cases hs
+    have hb := decode_list_end_le_max fs (d.take k) off vs e ht
+    have := (length_take_le d k).1
+    omega
+
+/-- weaker, but for every format (also with `raw`): if the first `k` bytes alone decode successfully, the reported end
     lies within those `k` bytes (so a buffer cut before the end of a field can only be rejected) -/
-theorem truncated_never_accepted (fs : FmtList) (d : Bytes) (k off : Nat) (vs : List Val) (e : Nat)
+theorem truncated_end_within_prefix (fs : FmtList) (d : Bytes) (k off : Nat) (vs : List Val) (e : Nat)
     (hoff : off ≤ (d.take k).length) (h : unpackListAt fs (d.take k) off = .ok (vs, e)) : e ≤ k := by
   have := decode_list_in_bounds fs (d.take k) off vs e hoff h
-  simp at this; omega
+  have := (length_take_le d k).1
+  omega
 
 /-- `unpack_serializable_list(..., consume_all=True)`: success means every byte from the start offset on was consumed
     (the returned remainder is empty) and the last end offset is the buffer length or beyond the start. -/
@@ -315,6 +455,21 @@ theorem crypto_on_packet_total (env : Env) (dec : Nat → Bytes → Dec) (lk : E
     · exact tb data
   · exact tb data
 
+/-- StatisticsEndpoint.on_packet returns normally for every datagram and every set of tracked prefixes -/
+theorem stats_on_packet_total (lid : Nat) (tracked : List Bytes) (data : Bytes) :
+    (statsOnPacket lid tracked data).2 = none := by
+  unfold statsOnPacket
+  apply andThen_none rfl
+  split
+  · rfl
+  · rename_i hg
+    split
+    · rename_i hnone
+      simp [Gen.statMinLen, Gen.statIdx] at hg hnone
+      have h2 : ¬ (data.length < 23) := of_decide_eq_false hg.2
+      omega
+    · rfl
+
 theorem listener_on_packet_total (env : Env) (dec : Nat → Bytes → Dec) (lk : Except Exn (Option Nat))
     (hlk : ∃ p, lk = .ok p) (t : List (Nat × Listener)) (l : Nat) (data : Bytes) :
     (listenerOnPacket env dec lk t l data).2 = none := by
@@ -322,6 +477,7 @@ theorem listener_on_packet_total (env : Env) (dec : Nat → Bytes → Dec) (lk :
   split
   · exact community_on_packet_total _ _ hlk ..
   · exact crypto_on_packet_total _ _ _ hlk ..
+  · exact stats_on_packet_total ..
   · rfl
   · rfl
 
@@ -345,11 +501,16 @@ theorem dispatch_total (env : Env) (dec : Nat → Bytes → Dec) (src data : Byt
         rw [step_out_total] at he; cases he
       · exact ih _
 
-/-- FULL statement: for every registry state (any history of add / add_prefix / remove / open / close), every Network
-    state and sender address, every datagram (any length, any content), every behaviour of handler bodies and relaying
-    (`env`: may raise anything AND may call add_listener / add_prefix_listener / remove_listener / close on the endpoint
-    while the datagram is being dispatched) and every decryption outcome (`dec`), `notify_listeners` returns normally:
-    no exception reaches the transport. -/
+/-- For every registry state (any history of add / add_prefix / remove / open / close), every Network state and sender
+    address, every datagram (any length, any content), every behaviour of handler bodies and relaying (`env`: may raise
+    anything AND may call add_listener / add_prefix_listener / remove_listener / close on the endpoint while the datagram
+    is being dispatched) and every decryption outcome (`dec`), `notify_listeners` returns normally.
+    Scope (not hypotheses of the Lean statement, but of the model): listeners are the shipped kinds — Community,
+    PythonCryptoEndpoint, StatisticsEndpoint (the translator fails if the package gains another EndpointListener class) —
+    or foreign ones that do not raise (`Listener.inert`); handlers raise only `Exception` subclasses; the only failure
+    points are those the model names (`Exn`): statements of the unprotected preludes that the model does not mention
+    (`decode_map[msg_id]` on a 256-entry list, `last_response = time()`, the logging call) are covered by the
+    differential run and the oracle only. -/
 theorem receive_total (env : Env) (dec : Nat → Bytes → Dec) (fuel : Nat) (r : Registry) (net : NetS) (src data : Bytes) :
     (notify env dec fuel r net src data).1.2 = none :=
   dispatch_total ..
@@ -361,12 +522,14 @@ theorem listener_called (env : Env) (dec : Nat → Bytes → Dec) (lk : Except E
   split
   · unfold communityOnPacket; rw [andThen_events_of_none rfl]; simp
   · unfold cryptoOnPacket; rw [andThen_events_of_none rfl]; simp
+  · unfold statsOnPacket; rw [andThen_events_of_none rfl]; simp
   · simp
   · rename_i hn; rw [hn] at h; cases h
 
-/-- a listener's registry calls are "harmless for `l`" if they never remove `l` and never close the endpoint -/
+/-- a listener's registry calls are "harmless for `l`" if they never remove `l` and never close the endpoint
+    (anything else — removing themselves or others, registering listeners or prefixes, open() — is allowed) -/
 def Harmless (env : Env) (l : Nat) : Prop :=
-  ∀ x d op, op ∈ env.effects x d → op ≠ .rm l ∧ ∀ b, op ≠ .setOpen b
+  ∀ x d op, op ∈ env.effects x d → op ≠ .rm l ∧ op ≠ .setOpen false
 
 theorem dispatch_called (env : Env) (dec : Nat → Bytes → Dec) (src data : Bytes) (key : Option Bytes) (l : Nat)
     (hgood : Harmless env l) :
@@ -414,7 +577,7 @@ theorem dispatch_called (env : Env) (dec : Nat → Bytes → Dec) (src data : By
         · unfold stepState; exact hinv'
         · unfold stepState; rw [htab]; exact hreg
 
-/-- FULL statement ("other overlays still get the datagram"): on an open endpoint every listener that notify_listeners
+/-- "other overlays still get the datagram": on an open endpoint every listener that notify_listeners
     starts to iterate over — the listeners registered for the datagram's 22-byte prefix, or all global listeners when no
     such prefix is registered — has its on_packet invoked, no matter what the listeners before it did with the datagram:
     rejected it, raised inside a handler, detached THEMSELVES or OTHER listeners from the endpoint, registered new
@@ -545,18 +708,20 @@ theorem crypto_events (env : Env) (dec : Nat → Bytes → Dec) (lk : Except Exn
             · cases h
             · split at h
               · cases h
-              · cases h
               · split at h
+                · cases h
                 · cases h
                 · split at h
                   · cases h
                   · split at h
                     · cases h
-                    · obtain ⟨tl, o, ht, hp, hev⟩ := tb _ h
-                      refine ⟨tl, o, ht, ?_, hev⟩
-                      rw [hp, take_of_prefix c.pfx data _ hpre hlen]
-                      unfold cellToBin
-                      rw [List.append_assoc, List.take_append_of_le_length hlen]
+                    · split at h
+                      · cases h
+                      · obtain ⟨tl, o, ht, hp, hev⟩ := tb _ h
+                        refine ⟨tl, o, ht, ?_, hev⟩
+                        rw [hp, take_of_prefix c.pfx data _ hpre hlen]
+                        unfold cellToBin
+                        rw [List.append_assoc, List.take_append_of_le_length hlen]
       · exact tb data h
     · exact tb data h
 
@@ -577,6 +742,12 @@ theorem listener_events (env : Env) (dec : Nat → Bytes → Dec) (lk : Except E
   · rename_i c hc
     obtain ⟨_, o, _, hp, hev⟩ := crypto_events _ _ _ _ _ _ _ (hwf l c hc) h hh
     rw [← hp]; exact hev
+  · unfold statsOnPacket at h
+    rcases andThen_mem h with h | h
+    · simp at h; subst h; cases hh
+    · split at h
+      · cases h
+      · split at h <;> cases h
   · simp at h; subst h; cases hh
   · cases h
 
@@ -606,7 +777,7 @@ theorem dispatch_mem (env : Env) (dec : Nat → Bytes → Dec) (src data : Bytes
           rw [stepState_table] at h'
           exact ⟨l', lk', h'⟩
 
-/-- FULL statement: whatever the registry, the Network, the datagram, the handler bodies (raising, re-entrant) and the
+/-- whatever the registry, the Network, the datagram, the handler bodies (raising, re-entrant) and the
     decryption results, a message handler — public (`decode_map`) or circuit-only (`decode_map_private`, reached
     through a cell) — of an overlay with prefix `p` is entered only if the first 22 bytes of the datagram handed to
     notify_listeners are `p`. -/
@@ -621,6 +792,36 @@ theorem prefix_gate (env : Env) (dec : Nat → Bytes → Dec) (fuel : Nat) (r : 
 theorem shipped_overlays_prefix_length :
     Gen.overlays.all (fun o => o.2.1.length == Gen.prefixLen && Gen.prefixLen == Gen.pubTake
       && Gen.pubTake == Gen.privTake) = true := by decide
+
+/-! ### the transport callback -/
+
+/-- UDPEndpoint.datagram_received (address tuples of 2 items, what asyncio delivers for AF_INET) and
+    UDPv6Endpoint.datagram_received (address tuples of 2 or more items: asyncio delivers 4 for AF_INET6) return normally
+    for every datagram, running or not: the address conversion read from the source cannot raise for these arities and
+    notify_listeners returns normally (`receive_total`). -/
+theorem datagram_received_total (env : Env) (dec : Nat → Bytes → Dec) (fuel : Nat) (running v6 : Bool) (arity : Nat)
+    (harity : if v6 then 2 ≤ arity else arity = 2) (r : Registry) (net : NetS) (src data : Bytes) :
+    (datagramReceived env dec fuel running v6 arity r net src data).2 = none := by
+  unfold datagramReceived
+  split
+  · rfl
+  · split
+    · rename_i e he
+      unfold addrConv at he
+      cases v6 with
+      | true =>
+        simp only [if_true, Gen.v6AddrSlice] at he harity
+        split at he
+        · cases he
+        · rename_i hn
+          simp at hn; omega
+      | false =>
+        simp only [Bool.false_eq_true, if_false, Gen.v4AddrSlice] at he harity
+        split at he
+        · cases he
+        · rename_i hn
+          simp at hn; omega
+    · exact receive_total ..
 
 /-! ### snapshot loader -/
 
@@ -648,6 +849,33 @@ theorem load_snapshot_total (snap : Bytes) (fuel off : Nat) (h : snap.length - o
         rw [ih e (by omega)]
       · rfl
     · rfl
+
+/-- load_snapshot never raises and always terminates: with `len(snapshot)` iterations of fuel the loop ends normally
+    for every byte string.  Depends on the shapes read from the source: the entry decode sits inside
+    `try … except Exception` (`Gen.snapCatchAll`) and the handler breaks when the offset did not advance
+    (`Gen.snapStuckBreak`) — without either the model raises / runs out of fuel and this theorem fails. -/
+theorem load_snapshot_never_raises (snap : Bytes) : ∃ l, loadSnapshot snap = .ok l := by
+  have key : ∀ fuel off, snap.length - off ≤ fuel → ∃ l, loadSnapshotLoop snap fuel off = .ok l := by
+    intro fuel
+    induction fuel with
+    | zero =>
+      intro off h
+      have : ¬ off < snap.length := by omega
+      exact ⟨[], by simp [loadSnapshotLoop, this]⟩
+    | succ n ih =>
+      intro off h
+      rw [loadSnapshotLoop.eq_def]
+      simp only
+      split
+      · split
+        · rename_i a e he
+          have hb := unpackAddressAt_bound he
+          obtain ⟨l, hl⟩ := ih e (by omega)
+          rw [hl]
+          exact ⟨_, rfl⟩
+        · simp [Gen.snapCatchAll, Gen.snapStuckBreak]
+      · exact ⟨[], rfl⟩
+  exact key snap.length 0 (by omega)
 
 /-! non-vacuity of the receive theorems: a registry with a tunnel overlay behind a crypto endpoint; a plaintext CREATE
     cell reaches the circuit-only handler; a one-shot listener that detaches itself does not make the next one miss the
@@ -682,5 +910,42 @@ example : (notify exOneShot (fun _ _ => .fail) 9 exReg2 {} [1] [9, 9]).2.reg.lis
 /-- verified peer cached at address [1], then removed: the next lookup from [1] returns none and drops the entry -/
 def exNet : NetS := (((({} : NetS).newObj 7 70 [1]).addVerified 7).lookup [1]).2.removePeer 7
 example : (exNet.cache.length, (exNet.lookup [1]).2.cache.length) = (1, 0) := by decide
+
+/-- `Harmless` is satisfiable by a non-trivial behaviour: the one-shot listener 1 removes itself; that is harmless for
+    listener 2, which `receive_all_recipients_called` therefore guarantees to be called -/
+example : Harmless exOneShot 2 := by
+  intro x d op h
+  simp only [exOneShot] at h
+  split at h
+  · simp at h; subst h; exact ⟨by decide, by decide⟩
+  · cases h
+example : Ev.called 2 ∈ (notify exOneShot (fun _ _ => .fail) 9 exReg2 {} [1] [9, 9]).1.1 :=
+  receive_all_recipients_called exOneShot _ exReg2 {} [1] [9, 9] 2 (by decide) rfl (by decide)
+    (by intro x d op h
+        simp only [exOneShot] at h
+        split at h
+        · simp at h; subst h; exact ⟨by decide, by decide⟩
+        · cases h) 9 (by decide)
+/-- the stale-entry case of the sender lookup as a stated instance -/
+example : ∃ p, (exNet.lookup [1]).1 = .ok p := sender_lookup_total exNet [1]
+/-- a StatisticsEndpoint tracking the prefix: the 22-byte datagram equal to the prefix is dropped, not indexed -/
+example : (statsOnPacket 5 [exPfx] exPfx) = ([.called 5], none) := by decide
+/-- a circuit without hops: an encrypted cell for it is dropped before any decryption (dec would otherwise be used) -/
+example : ((notify exEnv (fun _ _ => .ok [2, 1]) 9
+    { exReg with table := [(10, .crypto { pfx := exPfx, tunnel := some (1, exTunnel), relays := [], circuits := [77],
+                                          exits := [], maxRelayEarly := 8, hopless := [77] })] } {} [1]
+    (exPfx ++ [0, 0, 0, 0, 77, 0, 1, 9, 9])).1.1.map evCode) = [10] := by decide
+/-- truncation: `[varlen, uint8]` decodes 6 bytes; every proper cut is an error (instance of `truncated_is_rejected`);
+    with a trailing `raw` a cut is accepted with a shorter rest — why the theorem needs `rawFree` -/
+example : rawFreeList (fl [.varlen 2 1, .struct [.uint 1]]) = true := by decide
+example : endOf (unpackListAt (fl [.varlen 2 1, .struct [.uint 1]]) [0, 3, 97, 98, 99, 7] 0) = some 6 := by decide
+example : errOf (unpackListAt (fl [.varlen 2 1, .struct [.uint 1]]) (([0, 3, 97, 98, 99, 7] : Bytes).take 5) 0) = some .short := by
+  decide
+example : errOf (unpackListAt (fl [.varlen 2 1, .struct [.uint 1]]) (([0, 3, 97, 98, 99, 7] : Bytes).take 4) 0) = some .pack := by
+  decide
+example : endOf (unpackListAt (fl [.struct [.uint 1], .raw]) (([1, 2, 3, 4] : Bytes).take 2) 0) = some 2 := by decide
+/-- a start offset beyond the buffer with an empty format list: the unchanged offset comes back (`decode_end_le_max`) -/
+example : endOf (unpackListAt .nil [] 50) = some 50 := by decide
+example : (match loadSnapshot [1, 1, 2, 3, 4, 0, 80, 9] with | .ok l => l.length | .error _ => 99) = 1 := by decide
 
 end Ipv8.C03
